@@ -300,6 +300,19 @@ def check(model, rep, tier):
             'every new temporary must use an index that was incremented first',
             line=gs.node.lineno, witness='two temporaries in one statement')
 
+  # configuration patterns select edges by *equal* field name
+  mt = model.func(ANF, 'ASTEdgePattern.matches')
+  mp = mt.params()
+  cmpf = [c for c in ast.walk(mt.node) if isinstance(c, ast.Compare) and len(c.ops) == 1
+          and {core.norm(c.left), core.norm(c.comparators[0])} == {mp[1], 'self.field'}]
+  rep.check(len(cmpf) == 1 and isinstance(cmpf[0].ops[0], ast.Eq), 'ANF-CLASSES',
+            '%s:field-by-equality' % mt.site,
+            'an edge pattern must compare the field name for equality: containment '
+            'also matches every field whose name is a substring (\'value\' in '
+            '\'values\') and hoists positions the configuration never asked for',
+            {'comparison': [core.norm(c) for c in cmpf]}, line=mt.node.lineno,
+            witness="a pattern for 'values' also replacing Attribute.value")
+
   # ---------------------------------------------------------------- dependencies
   rep.depends('C17', ['TREE-COPY'],
               'every hoisted `tmp = expr` is built by templates.replace, which '
